@@ -404,7 +404,10 @@ class Gen:
         sep = self.pick([",", ", ", " ,", ","])
         return op + "(" + self.formula(labels, depth - 1) + sep + self.formula(labels, depth - 1) + ")"
 
-    def adf_code(self):
+    ROTATION = ["ok", "garbage", "attack", "undeclared", "ok", "noac", "selfsup", "dupac", "ok", "acundeclared",
+                "ws", "dupstmt", "prestudy", "garbage", "ok", "chain"]
+
+    def adf_code(self, kind=None):
         r = self.r
         n = r.randint(1, 6)
         pool = list(self.LABELS)
@@ -412,10 +415,31 @@ class Gen:
             pool = pool[:3] + r.sample(self.ODD_LABELS, 3)
         labels = pool[:n]
         r.shuffle(labels)
-        kind = self.wpick([("ok", 20), ("noac", 2), ("dupac", 2), ("undeclared", 2), ("acundeclared", 1),
-                           ("garbage", 2), ("ws", 2), ("dupstmt", 1)])
+        if kind is None:
+            kind = self.wpick([("ok", 16), ("noac", 2), ("dupac", 2), ("undeclared", 2), ("acundeclared", 1),
+                               ("garbage", 2), ("ws", 2), ("dupstmt", 1), ("attack", 3), ("selfsup", 2), ("chain", 2),
+                               ("prestudy", 1)])
         stm = ["s(%s)." % l for l in labels]
         acs = ["ac(%s,%s)." % (l, self.formula(labels, r.randint(0, 3))) for l in labels]
+        if kind == "attack":      # attack cycles / mutual attacks: several stable models
+            acs = []
+            for i, l in enumerate(labels):
+                others = [x for x in labels if x != l] or [l]
+                att = r.sample(others, min(len(others), r.randint(1, 2)))
+                f = "neg(%s)" % att[0]
+                for a in att[1:]:
+                    f = "and(%s,neg(%s))" % (f, a)
+                acs.append("ac(%s,%s)." % (l, f))
+        if kind == "selfsup":     # self-support and support cycles: grounded all-undecided, stable differs from 2-valued
+            acs = ["ac(%s,%s)." % (l, self.pick([l, labels[(i + 1) % len(labels)], "or(%s,neg(%s))" % (l, l)]))
+                   for i, l in enumerate(labels)]
+        if kind == "chain":       # propagation chain needing n grounding rounds
+            acs = ["ac(%s,c(v))." % labels[0]] + ["ac(%s,%s)." % (labels[i], self.pick([labels[i - 1], "neg(%s)" % labels[i - 1]]))
+                                                   for i in range(1, len(labels))]
+        if kind == "prestudy":
+            stm = ["s(a).", "s(b).", "s(c)."]
+            acs = self.pick([["ac(a,c).", "ac(b,and(b,a)).", "ac(c,c)."], ["ac(a,a).", "ac(b,b).", "ac(c,c)."]])
+            labels = ["a", "b", "c"]
         if kind == "noac" and acs:
             acs.pop(r.randrange(len(acs)))
         if kind == "dupac":
@@ -435,15 +459,17 @@ class Gen:
                               "s(a).ac(a,nand(a,a))."])
         return code, kind
 
-    def c16_history(self):
+    def c16_history(self, k=None):
         """one user; 1-2 problems, all six strategies in random order, repeated gets"""
         r = self.r
+        forced = self.ROTATION[k % len(self.ROTATION)] if k is not None else None
         out = [(0, "POST", "/users/register", [("username", "alice"), ("password", PWS[0])]),
                (0, "POST", "/users/login", [("username", "alice"), ("password", PWS[0])])]
         stats = []
         for pn in (["p1"] if r.random() < 0.6 else ["p1", "p2"]):
-            code, kind = self.adf_code()
-            parsing = self.pick(["Naive", "Hybrid"])
+            code, kind = self.adf_code(forced)
+            forced = None
+            parsing = self.pick(["Naive", "Hybrid"]) if k is None or pn != "p1" else ["Naive", "Hybrid"][(k // len(self.ROTATION)) % 2]
             stats.append((kind, parsing))
             f = [("name", pn), ("file" if r.random() < 0.15 else "code", code), ("parsing", parsing)]
             out.append((0, "POST", "/adf/add", f))
@@ -1080,7 +1106,7 @@ def do_run(args, out):
                 run = run_seq_case(rig, out, k, seed, "seq", hist, njars)
                 out.write(stat_line(k, run, " jars=%d" % njars) + "\n")
             elif args.mode == "c16":
-                njars, hist, stats = g.c16_history()
+                njars, hist, stats = g.c16_history(k)
                 run = run_seq_case(rig, out, k, seed, "c16", hist, njars)
                 extra = " models=%d graphs=%d" % (run.stats["models"], run.stats["graphs"])
                 extra += "".join(" kind=%s parsing=%s" % s for s in stats)
